@@ -64,6 +64,17 @@ Example k2_pinned : both_hold (run_pinned (cfg_of k_procs) init k2_schedule) = t
 Proof. vm_compute. reflexivity. Qed.
 Example k3_pinned : both_hold (run_pinned (cfg_of k_procs) init k3_schedule) = true.
 Proof. vm_compute. reflexivity. Qed.
+(* the same window between two exclusive children 2 and 3 of the shared holder 1: siblings are unrelated *)
+Definition sib_procs : list (pid * (kind * option pid * nat)) :=
+  [(1, (Sh, None, 2)); (2, (Ex, Some 1, 2)); (3, (Ex, Some 1, 2))].
+Example siblings_pinned :
+  let s := run_pinned (cfg_of sib_procs) init (z [1; 1; 1; 2; 2; 3; 3; 2; 3; 2; 3]) in
+  holdsb s 2 && holdsb s 3 && negb (relatedb (cfg_of sib_procs) 2 3) = true.
+Proof. vm_compute. reflexivity. Qed.
+Example siblings_repaired :
+  forallb (fun s => mutex_okb (cfg_of sib_procs) s [1; 2; 3])
+          (trace_gen true (cfg_of sib_procs) init (z [1; 1; 1; 1; 2; 2; 3; 3; 2; 3; 2; 3; 2; 3])) = true.
+Proof. vm_compute. reflexivity. Qed.
 (* the same three schedules under the repaired protocol: nobody holds together with 3 at any point *)
 Example k123_repaired :
   forallb (fun sched => forallb (fun s => mutex_okb (cfg_of k_procs) s [1; 2; 3])
